@@ -44,13 +44,18 @@ func Gen(t *rapid.T) *Case {
 var fFaults = []string{"", "", "", "exec-fail", "reply-lost", "cancel-after-exec", "cancel-after-exec", "commit-fail", "cancelled"}
 
 func GenInProc(t *rapid.T) *FCase {
-	c := &FCase{}
+	c := &FCase{Batch: rapid.SampledFrom([]int{0, 1, 2, 5}).Draw(t, "batch")}
 	nc := rapid.IntRange(1, 3).Draw(t, "cycles")
 	for i := 0; i < nc; i++ {
 		n := rapid.IntRange(1, 10).Draw(t, "nops")
 		var ops []FOp
 		for j := 0; j < n; j++ {
-			op := FOp{K: rapid.SampledFrom([]string{"append", "append", "append", "save"}).Draw(t, "k")}
+			op := FOp{K: rapid.SampledFrom([]string{"append", "append", "append", "save", "peek"}).Draw(t, "k")}
+			if op.K == "peek" {
+				op.Back = rapid.IntRange(0, 3).Draw(t, "peekN")
+				ops = append(ops, op)
+				continue
+			}
 			if op.K == "save" {
 				op.Sub = rapid.SampledFrom([]string{"A", "A", "B"}).Draw(t, "sub")
 				switch rapid.IntRange(0, 5).Draw(t, "rewind") {
